@@ -1,6 +1,776 @@
+//! C14 — proof data is packed in allocation order and every input matters.
+//!
+//! Enumerated (fault_enumeration, engine E4): every configuration of the E4 catalogue (quick: its
+//! quick cross-section; thorough: all) plus extra shapes defined below (1–6 tables, more queries,
+//! cap heights 0–2, arities 2–8, final polynomials of length 1–4, no PoW, ZK with preprocessed
+//! data and lookups, degree-3 constraints). For each configuration, three clauses:
+//!
+//! (1) LENGTHS. The vectors produced by the repository's `*VerifierInputsBuilder::pack_values`
+//!     have exactly `circuit.public_flat_len` / `circuit.private_flat_len` elements.
+//! (2) UNIQUE-TAG PLACEMENT. Every field leaf of the honest object's JSON tree is replaced by a
+//!     distinct tag, the tagged object is deserialised, packed by the repository's packing code
+//!     and loaded with the real `set_public_inputs` / `set_private_inputs`. A hand-written walk
+//!     over the public target structures (`vpe4::placement`, written from the meaning of the
+//!     fields, never calling `get_values`) pairs every allocated target with the JSON path of the
+//!     element it is meant to carry; the witness slot `expr_to_widx[target]` must hold exactly the
+//!     tag(s) of that element. Every target is paired; every input position must be claimed by a
+//!     target; field leaves that reach no input are listed and handed to clause (3).
+//! (3) EVERY INPUT MATTERS. Every (position, basis coefficient) of the honest packed public and
+//!     private vectors that carries a proof leaf (position → leaf through the tag map of (2), i.e.
+//!     through the repository's own packing) is perturbed by +1 and the verification circuit is
+//!     run on the otherwise honest data; the same +1 is applied to that leaf of the proof and the
+//!     native verifier is asked. Likewise every proof leaf that is not a circuit input (Merkle
+//!     sibling digests = MMCS private data) is perturbed in the object. Violation: the native
+//!     verifier rejects, the circuit accepts ("unconstrained input"). Coefficients that map to no
+//!     proof leaf (the zero extension part of lifted base-field values) are listed, not judged.
+//!
+//! Oracle: Plonky3's native verifiers + the boring walk. C01's two known findings (honest proof
+//! rejected by the circuit: uni-STARK + hiding PCS; uneven commitment rounds with MMCS) leave no
+//! accepted baseline for (3); there (1) and (2) are still checked and (3) is skipped and said so.
+
+use std::collections::{BTreeMap, HashMap, HashSet};
+use std::sync::Mutex;
+use std::sync::atomic::{AtomicU64, Ordering};
+use std::time::Instant;
+
+use vpcore::rayon::prelude::*;
+use vpcore::serde_json::{Value, json};
+use vpcore::{Ctx, Histo, Report, finish, machinery_error};
+use vpe4::airs::{BAir, UAir};
+use vpe4::families::{bb, bb_zk, gl, kb_zk, kbq};
+use vpe4::placement::{Lift, Placement};
+use vpe4::tree::get as tree_get;
+use vpe4::{Fixture, FixtureSpec, FriSpec, Leaf, LeafKind, Packed, catalogue, class_string, leaves, parse_path, path_string, with_leaf};
+
+// ------------------------------------------------------------------------------------------
+// extra shapes (beyond the E4 catalogue)
+
+fn fs(tag: &'static str, b: usize, f: usize, a: usize, q: usize, cp: usize, qp: usize, cap: usize) -> FriSpec {
+    FriSpec {
+        tag,
+        log_blowup: b,
+        log_final_poly_len: f,
+        max_log_arity: a,
+        num_queries: q,
+        commit_pow_bits: cp,
+        query_pow_bits: qp,
+        cap_height: cap,
+    }
+}
+
+fn extra(name: &str, quick: bool, make: impl Fn() -> Result<Fixture, String> + Send + Sync + 'static) -> FixtureSpec {
+    FixtureSpec { name: name.to_string(), quick, make: Box::new(make) }
+}
+
+/// Every extra shape; `name` must equal the name the constructor derives (checked after `make`).
+fn extras() -> Vec<FixtureSpec> {
+    let mut v = vec![];
+    // four queries, cap height 2 (four cap entries per commitment), no proof of work at all
+    v.push(extra("babybear_d4_p2w16/uni/fri/c14_fib16/c14_b1_f0_a1_q4_nopow_cap2", true, || {
+        bb::uni_fixture(UAir::Fib, "c14_fib16", 16, fs("c14_b1_f0_a1_q4_nopow_cap2", 1, 0, 1, 4, 0, 0, 2))
+    }));
+    // degree-3 constraints (more quotient chunks), preprocessed, final polynomial of length 4, five queries
+    v.push(extra("babybear_d4_p2w16/uni/fri/c14_mul4_deg3_prep32/c14_b1_f2_a2_q5_cap1", false, || {
+        bb::uni_fixture(
+            UAir::Mul { degree: 3, rows: 32, reps: 4 },
+            "c14_mul4_deg3_prep32",
+            32,
+            fs("c14_b1_f2_a2_q5_cap1", 1, 2, 2, 5, 2, 3, 1),
+        )
+    }));
+    // six tables of five heights/widths, two of them preprocessed, one with public values, one
+    // without next-row opening
+    v.push(extra("babybear_d4_p2w16/batch/fri/c14_six_tables/fri_testing", true, || {
+        bb::batch_fixture(
+            vec![
+                BAir::Mul { degree: 2, rows: 32, reps: 2 },
+                BAir::Fib,
+                BAir::Add,
+                BAir::Sub { rows: 8 },
+                BAir::PubVal,
+                BAir::AddNoNext,
+            ],
+            "c14_six_tables",
+            vec![32, 16, 8, 8, 16, 32],
+            FriSpec::TESTING,
+        )
+    }));
+    // a single table
+    v.push(extra("babybear_d4_p2w16/batch/fri/c14_one_table/fri_testing_cap1", false, || {
+        bb::batch_fixture(vec![BAir::Add], "c14_one_table", vec![8], FriSpec::TESTING_CAP1)
+    }));
+    // ZK: four tables, preprocessed data, public values, random commitment + random openings
+    v.push(extra("babybear_d4_p2w16/batch/hiding_fri/c14_zk_four_tables/fri_testing", false, || {
+        bb_zk::batch_fixture(
+            vec![BAir::Mul { degree: 2, rows: 16, reps: 3 }, BAir::Add, BAir::Sub { rows: 16 }, BAir::PubVal],
+            "c14_zk_four_tables",
+            vec![16, 16, 16, 8],
+            FriSpec::TESTING,
+        )
+    }));
+    // ZK + lookups (local and global) + preprocessed, three tables, three queries, cap height 1
+    v.push(extra("koalabear_d4_p2w16/batch/hiding_fri/c14_zk_lookups3/c14_b2_f0_a1_q3_cap1", true, || {
+        kb_zk::batch_fixture(
+            vec![
+                BAir::Mul { degree: 2, rows: 16, reps: 3 },
+                BAir::MulLk { reps: 2, local: true, global: true },
+                BAir::FibLk { log_height: 4, global: true, mult: 2 },
+            ],
+            "c14_zk_lookups3",
+            vec![16, 16, 16],
+            fs("c14_b2_f0_a1_q3_cap1", 2, 0, 1, 3, 1, 1, 1),
+        )
+    }));
+    // Goldilocks (D=2, width-8 permutation): lookups, arity 4, final polynomial of length 2, cap 1
+    v.push(extra("goldilocks_d2_p2w8/batch/fri/c14_lookups16/c14_b1_f1_a2_q3_cap1", false, || {
+        gl::batch_fixture(
+            vec![
+                BAir::MulLk { reps: 2, local: true, global: true },
+                BAir::FibLk { log_height: 4, global: true, mult: 2 },
+            ],
+            "c14_lookups16",
+            vec![16, 16],
+            fs("c14_b1_f1_a2_q3_cap1", 1, 1, 2, 3, 0, 2, 1),
+        )
+    }));
+    // quintic extension (D=5): three tables, arity 8
+    v.push(extra("koalabear_quintic_d5_p2w16d1/batch/fri/c14_three_tables/c14_b2_f0_a3_q2", false, || {
+        kbq::batch_fixture(
+            vec![BAir::Mul { degree: 2, rows: 16, reps: 2 }, BAir::Add, BAir::PubVal],
+            "c14_three_tables",
+            vec![16, 8, 16],
+            fs("c14_b2_f0_a3_q2", 2, 0, 3, 2, 1, 1, 0),
+        )
+    }));
+    v
+}
+
+fn all_specs() -> Vec<FixtureSpec> {
+    let mut v = catalogue();
+    v.extend(extras());
+    v
+}
+
+// ------------------------------------------------------------------------------------------
+
+fn plus_one(v: u64, modulus: u64) -> u64 {
+    if v >= modulus - 1 { 0 } else { v + 1 }
+}
+
+/// The tree with every FIELD leaf replaced by a distinct tag; structural integers kept.
+/// `tag(k) = t0 + k` for the k-th field leaf in document order; `VERIF_SEED` rotates `t0` only.
+fn tag_tree(honest: &Value, all: &[Leaf], t0: u64) -> (Value, HashMap<u64, usize>, Vec<u64>) {
+    let mut tagged = honest.clone();
+    let mut by_tag = HashMap::new();
+    let mut tag_of = vec![0u64; all.len()];
+    let mut k = 0u64;
+    for (i, l) in all.iter().enumerate() {
+        if l.kind != LeafKind::Field {
+            continue;
+        }
+        let t = t0 + k;
+        k += 1;
+        *vpe4::tree::get_mut(&mut tagged, &l.path).expect("leaf path") = json!(t);
+        by_tag.insert(t, i);
+        tag_of[i] = t;
+    }
+    (tagged, by_tag, tag_of)
+}
+
+#[derive(Default, Clone)]
+struct ClassRow {
+    evals: u64,
+    native_reject: u64,
+    both_accept: u64,
+    unconstrained: u64,
+    circuit_stricter: u64,
+}
+
+#[derive(Clone)]
+enum Site {
+    /// coefficient `coeff` of position `pos` of the packed public (`vec` 0) / private (`vec` 1) vector
+    Packed { vec: usize, pos: usize, coeff: usize, leaf: usize },
+    /// a proof leaf that is not a circuit input (MMCS private datum)
+    NotAnInput { leaf: usize },
+}
+
+struct Totals {
+    evaluations: AtomicU64,
+    nontrivial: AtomicU64,
+    pairs_checked: AtomicU64,
+    planned: AtomicU64,
+    skipped: AtomicU64,
+}
+
+/// Violations go through this filter so that `--replay` reports only the stored key.
+struct Sink<'a> {
+    report: &'a Report,
+    only_key: Option<String>,
+}
+impl Sink<'_> {
+    fn violation(&self, key: String, what: String, replay: Value) {
+        if let Some(k) = &self.only_key {
+            if *k != key {
+                return;
+            }
+        }
+        self.report.violation(key, what, replay);
+    }
+}
+
+fn vec_name(v: usize) -> &'static str {
+    if v == 0 { "public" } else { "private" }
+}
+
+/// Describe a coefficient vector in terms of the leaves whose tags it holds.
+fn describe(vals: &[u64], by_tag: &HashMap<u64, usize>, all: &[Leaf]) -> String {
+    let parts: Vec<String> = vals
+        .iter()
+        .map(|v| match by_tag.get(v) {
+            Some(&i) => format!("tag({})", path_string(&all[i].path)),
+            None => v.to_string(),
+        })
+        .collect();
+    format!("[{}]", parts.join(", "))
+}
+
+/// All three clauses on one configuration. Returns the per-configuration evidence record.
+fn check_config(ctx: &Ctx, fx: &Fixture, sink: &Sink, verdicts: &Histo, totals: &Totals, samples: &Mutex<Vec<Value>>) -> Value {
+    let t_start = Instant::now();
+    let cfg = fx.name.clone();
+    let d = fx.ext_degree;
+    let honest = &fx.honest;
+    let all: Vec<Leaf> = leaves(honest);
+    let n_field = all.iter().filter(|l| l.kind == LeafKind::Field).count();
+    let leaf_by_path: HashMap<String, usize> = all.iter().enumerate().map(|(i, l)| (path_string(&l.path), i)).collect();
+
+    // ---------------------------------------------------------------- (1) lengths
+    let packed_h: Packed =
+        fx.pack(honest).unwrap_or_else(|e| machinery_error(&format!("{cfg}: cannot pack the honest object: {e}")));
+    let (pub_len, priv_len) =
+        fx.circuit_io_lens(honest).unwrap_or_else(|e| machinery_error(&format!("{cfg}: no circuit for the honest object: {e}")));
+    let mut lengths_ok = true;
+    for (name, got, want) in [("public", packed_h.public.len(), pub_len), ("private", packed_h.private.len(), priv_len)] {
+        if got != want {
+            lengths_ok = false;
+            sink.violation(
+                format!("{cfg}|lengths|{name}"),
+                format!("{cfg}: pack_values yields {got} {name} values, the circuit expects {name}_flat_len = {want}"),
+                json!({"config": cfg, "clause": "lengths", "vector": name, "packed": got, "expected": want}),
+            );
+        }
+    }
+
+    // ---------------------------------------------------------------- (2) unique-tag placement
+    let t0 = 1_000_000 + (ctx.seed % 1000) * 100_000;
+    if t0 + n_field as u64 >= fx.modulus {
+        machinery_error("tag range exceeds the modulus");
+    }
+    let (tagged, by_tag, tag_of) = tag_tree(honest, &all, t0);
+    let pl: Placement =
+        fx.placement(&tagged).unwrap_or_else(|e| machinery_error(&format!("{cfg}: placement observation failed: {e}")));
+    if pl.packed.public.len() != packed_h.public.len() || pl.packed.private.len() != packed_h.private.len() {
+        machinery_error(&format!("{cfg}: packing the tagged object gives other lengths than packing the honest one"));
+    }
+    let mut placement_notes: Vec<String> = vec![];
+    for (name, r) in [("set_public_inputs", &pl.set_public), ("set_private_inputs", &pl.set_private)] {
+        if let Err(e) = r {
+            if lengths_ok {
+                // right lengths, yet the loader refuses distinct values: two input positions share
+                // one witness slot, i.e. two different proof elements are forced onto one input
+                let short: String = e.chars().take(160).collect();
+                sink.violation(
+                    format!("{cfg}|{name}|distinct_elements_share_an_input"),
+                    format!("{cfg}: {name} refuses the tagged vectors (all elements distinct): {short}"),
+                    json!({"config": cfg, "clause": "placement", "error": short}),
+                );
+            }
+            placement_notes.push(format!("{name}: {e}"));
+        }
+    }
+
+    let mut hits: Vec<u32> = vec![0; all.len()];
+    let mut claimed_widx: HashSet<u32> = HashSet::new();
+    let mut pairs_ok = 0u64;
+    let mut pair_classes: BTreeMap<String, u64> = BTreeMap::new();
+    let mut placement_sample: Option<Value> = None;
+    for p in &pl.pairs {
+        let path = parse_path(&p.path);
+        let class = class_string(&path);
+        *pair_classes.entry(class.clone()).or_insert(0) += 1;
+        if let Some(w) = p.widx {
+            claimed_widx.insert(w);
+        }
+        // the proof element the field name designates
+        let node = tree_get(&tagged, &path);
+        let (expected, leaf_ids): (Option<Vec<u64>>, Vec<usize>) = match (p.lift, node) {
+            (Lift::Base, Some(Value::Number(n))) => {
+                let mut e = vec![0u64; d];
+                e[0] = n.as_u64().unwrap_or(0);
+                (Some(e), leaf_by_path.get(&p.path).copied().into_iter().collect())
+            }
+            (Lift::Ext, Some(Value::Object(m))) => match m.get("value").and_then(|v| v.as_array()) {
+                Some(a) if a.len() == d => (
+                    Some(a.iter().map(|x| x.as_u64().unwrap_or(0)).collect()),
+                    (0..d).filter_map(|c| leaf_by_path.get(&format!("{}/value/{c}", p.path)).copied()).collect(),
+                ),
+                _ => (None, vec![]),
+            },
+            _ => (None, vec![]),
+        };
+        for &i in &leaf_ids {
+            hits[i] += 1;
+        }
+        let replay = |clause: &str| json!({"config": cfg, "clause": clause, "path": p.path, "class": class});
+        let Some(expected) = expected else {
+            sink.violation(
+                format!("{cfg}|{class}|target_without_proof_element"),
+                format!("{cfg}: an allocated target (expr {}) stands for {} but the proof has no such element", p.expr, p.path),
+                replay("target_without_proof_element"),
+            );
+            continue;
+        };
+        match &p.value {
+            None => sink.violation(
+                format!("{cfg}|{class}|target_never_fed"),
+                format!(
+                    "{cfg}: target for {} (expr {}, slot {:?}) holds no value after set_public_inputs + set_private_inputs",
+                    p.path, p.expr, p.widx
+                ),
+                replay("target_never_fed"),
+            ),
+            Some(got) if *got != expected => sink.violation(
+                format!("{cfg}|{class}|misplaced"),
+                format!(
+                    "{cfg}: target for {} (expr {}, slot {:?}) received {} instead of its own element {:?}",
+                    p.path,
+                    p.expr,
+                    p.widx,
+                    describe(got, &by_tag, &all),
+                    expected
+                ),
+                replay("misplaced"),
+            ),
+            Some(got) => {
+                pairs_ok += 1;
+                if placement_sample.is_none() && p.lift == Lift::Ext {
+                    placement_sample = Some(json!({"config": cfg, "clause": "placement", "target_expr": p.expr, "witness_slot": p.widx,
+                        "stands_for": p.path, "tags_expected": expected, "slot_holds": got}));
+                }
+            }
+        }
+    }
+    totals.pairs_checked.fetch_add(pl.pairs.len() as u64, Ordering::Relaxed);
+    if let Some((i, _)) = hits.iter().enumerate().find(|(_, h)| **h > 1) {
+        machinery_error(&format!("{cfg}: the walk pairs leaf {} with {} targets", path_string(&all[i].path), hits[i]));
+    }
+
+    // input positions nobody claims. The only target structure out of reach is the commitment of
+    // the batch common data (`pub(crate)`): it is paired BY ELIMINATION — the unclaimed public
+    // positions, in order, must carry the words of /common/preprocessed/commitment in order.
+    let unclaimed = |rows: &[u32]| -> Vec<usize> { (0..rows.len()).filter(|&i| !claimed_widx.contains(&rows[i])).collect() };
+    let unclaimed_pub = unclaimed(&pl.public_rows);
+    let unclaimed_priv = unclaimed(&pl.private_rows);
+    let common_leaves: Vec<usize> = if pl.unreachable.is_empty() {
+        vec![]
+    } else {
+        all.iter()
+            .enumerate()
+            .filter(|(_, l)| l.kind == LeafKind::Field && path_string(&l.path).starts_with("/common/preprocessed/commitment/cap/"))
+            .map(|(i, _)| i)
+            .collect()
+    };
+    let mut by_elimination = 0u64;
+    if lengths_ok {
+        if !unclaimed_priv.is_empty() || unclaimed_pub.len() != common_leaves.len() {
+            machinery_error(&format!(
+                "{cfg}: the target walk is incomplete: {} public / {} private input positions are claimed by no walked target \
+                 (expected {} for the unreachable common-data commitment); first public {:?}, first private {:?}",
+                unclaimed_pub.len(),
+                unclaimed_priv.len(),
+                common_leaves.len(),
+                unclaimed_pub.first().map(|&i| describe(&pl.packed.public[i], &by_tag, &all)),
+                unclaimed_priv.first().map(|&i| describe(&pl.packed.private[i], &by_tag, &all)),
+            ));
+        }
+        for (&pos, &li) in unclaimed_pub.iter().zip(common_leaves.iter()) {
+            let mut expected = vec![0u64; d];
+            expected[0] = tag_of[li];
+            hits[li] += 1;
+            let class = all[li].class.clone();
+            if pl.packed.public[pos] != expected {
+                sink.violation(
+                    format!("{cfg}|{class}|misplaced"),
+                    format!(
+                        "{cfg}: public input position {pos} (paired by elimination with {}) received {}",
+                        path_string(&all[li].path),
+                        describe(&pl.packed.public[pos], &by_tag, &all)
+                    ),
+                    json!({"config": cfg, "clause": "misplaced", "path": path_string(&all[li].path), "class": class, "by_elimination": true}),
+                );
+            } else {
+                by_elimination += 1;
+            }
+        }
+    }
+    // positions that share a witness slot
+    let mut slot_count: HashMap<u32, u32> = HashMap::new();
+    for w in pl.public_rows.iter().chain(pl.private_rows.iter()) {
+        *slot_count.entry(*w).or_insert(0) += 1;
+    }
+    let aliased_positions = slot_count.values().filter(|c| **c > 1).count();
+
+    // position/coefficient -> proof leaf, through the repository's own packing of the tagged object
+    let mut sites: Vec<Site> = vec![];
+    let mut unmapped: Vec<(usize, usize, usize)> = vec![]; // (vec, pos, coeff): carries no proof leaf
+    let mut tag_seen: HashSet<u64> = HashSet::new();
+    for (vi, vecs) in [&pl.packed.public, &pl.packed.private].into_iter().enumerate() {
+        for (pos, coeffs) in vecs.iter().enumerate() {
+            for (c, v) in coeffs.iter().enumerate() {
+                match by_tag.get(v) {
+                    Some(&leaf) => {
+                        tag_seen.insert(*v);
+                        sites.push(Site::Packed { vec: vi, pos, coeff: c, leaf });
+                    }
+                    None => unmapped.push((vi, pos, c)),
+                }
+            }
+        }
+    }
+    // field leaves that are not circuit inputs at all (their tag reaches no position)
+    let mut not_inputs: BTreeMap<String, u64> = BTreeMap::new();
+    for (i, l) in all.iter().enumerate() {
+        if l.kind == LeafKind::Field && hits[i] == 0 {
+            let t = tag_of[i];
+            if tag_seen.contains(&t) {
+                // reaches an input position, but no walked target stands for it: the target that
+                // received it has been reported as `misplaced` above
+                continue;
+            }
+            *not_inputs.entry(l.class.clone()).or_insert(0) += 1;
+            sites.push(Site::NotAnInput { leaf: i });
+        }
+    }
+    let unmapped_nonzero = unmapped
+        .iter()
+        .filter(|(vi, pos, c)| [&pl.packed.public, &pl.packed.private][*vi][*pos][*c] != 0)
+        .count();
+
+    // ---------------------------------------------------------------- (3) every input matters
+    let native0 = fx.native_verify(honest);
+    if !native0.accepts() {
+        machinery_error(&format!("{cfg}: the honest object is not accepted natively ({})", native0.tag()));
+    }
+    let circuit0 = fx.circuit_verify_packed(honest, &packed_h);
+    verdicts.add(&format!("honest:{}|{}", native0.tag(), circuit0.tag()));
+    let classes: Mutex<BTreeMap<String, ClassRow>> = Mutex::new(BTreeMap::new());
+    let nonbase: Mutex<BTreeMap<String, [u64; 2]>> = Mutex::new(BTreeMap::new());
+    let (mut phase3, mut phase3_note) = (true, String::new());
+    if !circuit0.accepts() {
+        phase3 = false;
+        phase3_note = format!(
+            "skipped: the circuit does not accept the honest packed data ({}) — no accepted baseline; native-accept/circuit-reject \
+             on the honest object is C01's subject (known findings F1/F2 there)",
+            circuit0.tag()
+        );
+    }
+    let local_samples: Mutex<Vec<Value>> = Mutex::new(vec![]);
+    let both_accept_list: Mutex<Vec<Value>> = Mutex::new(vec![]);
+    let (ev, nt, sk) = (AtomicU64::new(0), AtomicU64::new(0), AtomicU64::new(0));
+    if phase3 {
+        totals.planned.fetch_add(sites.len() as u64, Ordering::Relaxed);
+        sites.par_iter().for_each(|site| {
+            if ctx.out_of_time() {
+                sk.fetch_add(1, Ordering::Relaxed);
+                return;
+            }
+            let (leaf_i, circuit_v, where_) = match site {
+                Site::Packed { vec, pos, coeff, leaf } => {
+                    let mut pk = packed_h.clone();
+                    let cell = if *vec == 0 { &mut pk.public[*pos][*coeff] } else { &mut pk.private[*pos][*coeff] };
+                    if *cell != all[*leaf].value {
+                        machinery_error(&format!(
+                            "{cfg}: {} position {pos} coefficient {coeff} holds {} in the honest packing but its leaf {} is {}",
+                            vec_name(*vec),
+                            *cell,
+                            path_string(&all[*leaf].path),
+                            all[*leaf].value
+                        ));
+                    }
+                    *cell = plus_one(*cell, fx.modulus);
+                    (*leaf, fx.circuit_verify_packed(honest, &pk), json!({"vector": vec_name(*vec), "position": pos, "coefficient": coeff}))
+                }
+                Site::NotAnInput { leaf } => {
+                    let l = &all[*leaf];
+                    let t = with_leaf(honest, &l.path, plus_one(l.value, fx.modulus));
+                    (*leaf, fx.circuit_verify_packed(&t, &packed_h), json!("not a circuit input (MMCS private datum): perturbed in the object"))
+                }
+            };
+            let l = &all[leaf_i];
+            let tree = with_leaf(honest, &l.path, plus_one(l.value, fx.modulus));
+            let native_v = fx.native_verify(&tree);
+            ev.fetch_add(1, Ordering::Relaxed);
+            verdicts.add(&format!("{}|{}", native_v.tag(), circuit_v.tag()));
+            if native_v.rejects() {
+                nt.fetch_add(1, Ordering::Relaxed);
+            }
+            let case = || {
+                json!({"config": cfg, "clause": "every_input_matters", "site": where_, "leaf": path_string(&l.path), "class": l.class,
+                       "old_value": l.value, "native": native_v.to_json(), "circuit": circuit_v.to_json()})
+            };
+            let mut g = classes.lock().unwrap();
+            let row = g.entry(l.class.clone()).or_default();
+            row.evals += 1;
+            if native_v.rejects() {
+                row.native_reject += 1;
+            }
+            match (native_v.accepts(), circuit_v.accepts()) {
+                (true, true) => {
+                    row.both_accept += 1;
+                    drop(g);
+                    let mut b = both_accept_list.lock().unwrap();
+                    if b.len() < 10 {
+                        b.push(case());
+                    }
+                }
+                (false, true) => {
+                    row.unconstrained += 1;
+                    drop(g);
+                    let clause = match site {
+                        Site::Packed { .. } => "unconstrained_input",
+                        Site::NotAnInput { .. } => "unconstrained_mmcs_datum",
+                    };
+                    sink.violation(
+                        format!("{cfg}|{}|{clause}", l.class),
+                        format!(
+                            "{cfg}: {} +1 ({}): native verifier {} but the circuit accepts the perturbed input",
+                            path_string(&l.path),
+                            where_,
+                            native_v.tag()
+                        ),
+                        case(),
+                    );
+                }
+                (true, false) => {
+                    // the circuit constrains something the native verifier ignores: not this
+                    // property's clause (C01 judges native-accept/circuit-reject); counted
+                    row.circuit_stricter += 1;
+                }
+                (false, false) => {
+                    drop(g);
+                    let mut s = local_samples.lock().unwrap();
+                    if s.len() < 2 {
+                        s.push(case());
+                    }
+                }
+            }
+        });
+        // listed, not judged: the first extension coefficient of positions whose extension part
+        // carries no proof leaf (lifted base-field values) — does the circuit notice a non-base value?
+        let probes: Vec<&(usize, usize, usize)> = unmapped.iter().filter(|(_, _, c)| *c == 1).collect();
+        probes.par_iter().for_each(|(vi, pos, c)| {
+            if ctx.out_of_time() || (ctx.quick() && ctx.used() > 0.8) {
+                return;
+            }
+            let mut pk = packed_h.clone();
+            let cell = if *vi == 0 { &mut pk.public[*pos][*c] } else { &mut pk.private[*pos][*c] };
+            *cell = plus_one(*cell, fx.modulus);
+            let v = fx.circuit_verify_packed(honest, &pk);
+            let t0v = [&pl.packed.public, &pl.packed.private][*vi][*pos][0];
+            let class = by_tag.get(&t0v).map(|&i| all[i].class.clone()).unwrap_or_else(|| "?".into());
+            let mut g = nonbase.lock().unwrap();
+            let e = g.entry(format!("{}:{}", vec_name(*vi), class)).or_insert([0, 0]);
+            e[if v.accepts() { 0 } else { 1 }] += 1;
+        });
+    }
+
+    let evn = ev.load(Ordering::Relaxed);
+    totals.evaluations.fetch_add(evn, Ordering::Relaxed);
+    totals.nontrivial.fetch_add(nt.load(Ordering::Relaxed), Ordering::Relaxed);
+    totals.skipped.fetch_add(sk.load(Ordering::Relaxed), Ordering::Relaxed);
+    {
+        let mut s = samples.lock().unwrap();
+        if let Some(p) = placement_sample {
+            if s.len() < 12 {
+                s.push(p);
+            }
+        }
+        for x in local_samples.into_inner().unwrap() {
+            if s.len() < 12 {
+                s.push(x);
+            }
+        }
+    }
+    let classes = classes.into_inner().unwrap();
+    let class_json: BTreeMap<String, Value> = classes
+        .iter()
+        .map(|(k, r)| (k.clone(), json!([r.evals, r.native_reject, r.both_accept, r.unconstrained, r.circuit_stricter])))
+        .collect();
+    let nonbase_json: BTreeMap<String, Value> =
+        nonbase.into_inner().unwrap().into_iter().map(|(k, v)| (k, json!({"circuit_accepts": v[0], "circuit_rejects": v[1]}))).collect();
+    let n_packed_sites = sites.iter().filter(|s| matches!(s, Site::Packed { .. })).count();
+    eprintln!(
+        "[C14] t={:.1}s {} lens pub={}/{} priv={}/{} targets={} ok={} (+{} by elimination) sites={} judged={} native_reject={} {:.2}s{}",
+        ctx.elapsed_s(),
+        cfg,
+        packed_h.public.len(),
+        pub_len,
+        packed_h.private.len(),
+        priv_len,
+        pl.pairs.len(),
+        pairs_ok,
+        by_elimination,
+        sites.len(),
+        evn,
+        nt.load(Ordering::Relaxed),
+        t_start.elapsed().as_secs_f64(),
+        if phase3 { "" } else { " [(3) skipped: no accepted baseline]" }
+    );
+    json!({
+        "config": cfg, "desc": fx.desc.clone(),
+        "leaves": all.len(), "field_leaves": n_field,
+        "lengths": {"public": [packed_h.public.len(), pub_len], "private": [packed_h.private.len(), priv_len], "ok": lengths_ok},
+        "placement": {
+            "targets_walked": pl.pairs.len(), "targets_holding_their_own_tags": pairs_ok,
+            "paired_by_elimination(common-data commitment words)": by_elimination,
+            "unreachable_target_structures": pl.unreachable,
+            "targets_per_class": pair_classes,
+            "input_positions_sharing_a_slot": aliased_positions,
+            "field_leaves_that_are_not_circuit_inputs_per_class": not_inputs,
+            "coefficients_carrying_no_proof_leaf": unmapped.len(),
+            "of_which_nonzero": unmapped_nonzero,
+            "notes": placement_notes,
+        },
+        "every_input_matters": {
+            "ran": phase3, "note": phase3_note,
+            "sites_packed(position,coefficient)": n_packed_sites,
+            "sites_not_circuit_inputs": sites.len() - n_packed_sites,
+            "judged": evn, "native_reject": nt.load(Ordering::Relaxed), "skipped_out_of_time": sk.load(Ordering::Relaxed),
+            "per_class[evals,native_reject,both_accept,unconstrained,circuit_stricter]": class_json,
+            "both_accept_samples": both_accept_list.into_inner().unwrap(),
+            "listed_not_judged:first_extension_coefficient_of_lifted_base_values": nonbase_json,
+        },
+        "circuit": fx.stats.to_json(),
+        "wall_s": t_start.elapsed().as_secs_f64(),
+    })
+}
+
+fn release(fx: &Fixture) {
+    vpcore::rayon::broadcast(|_| fx.release_thread_engine());
+    fx.release_thread_engine();
+}
+
+fn make(spec: &FixtureSpec) -> Fixture {
+    let fx = (spec.make)().unwrap_or_else(|e| machinery_error(&format!("cannot build fixture {}: {e}", spec.name)));
+    if fx.name != spec.name {
+        machinery_error(&format!("fixture name {} differs from its spec name {}", fx.name, spec.name));
+    }
+    fx
+}
+
 fn main() {
-    let name = std::env::args().nth(1).unwrap();
-    let spec = vpe4::find_spec(&name).unwrap();
-    let fx = (spec.make)().unwrap();
-    println!("{}", vpcore::serde_json::to_string(&fx.honest).unwrap());
+    let ctx = Ctx::from_args("C14", "fault_enumeration");
+    vpcore::install_quiet_panic_hook();
+    let report = Report::new();
+    let verdicts = Histo::new();
+    let totals = Totals {
+        evaluations: AtomicU64::new(0),
+        nontrivial: AtomicU64::new(0),
+        pairs_checked: AtomicU64::new(0),
+        planned: AtomicU64::new(0),
+        skipped: AtomicU64::new(0),
+    };
+    let samples: Mutex<Vec<Value>> = Mutex::new(vec![]);
+
+    if let Some(p) = ctx.replay.clone() {
+        // re-run the stored configuration; only the stored key may be reported
+        let full: Value = vpcore::serde_json::from_str(&std::fs::read_to_string(&p).unwrap_or_default()).unwrap_or(Value::Null);
+        let r = vpcore::load_replay(&p);
+        let cfg = r["config"].as_str().unwrap_or_else(|| machinery_error("replay: no config"));
+        let spec = all_specs().into_iter().find(|s| s.name == cfg).unwrap_or_else(|| machinery_error(&format!("replay: unknown config {cfg}")));
+        let fx = make(&spec);
+        let sink = Sink { report: &report, only_key: full["key"].as_str().map(|s| s.to_string()) };
+        let rec = check_config(&ctx, &fx, &sink, &verdicts, &totals, &samples);
+        println!("replayed {cfg} (key filter {:?}): {} violating key(s)", sink.only_key, report.distinct());
+        let cov = json!({"evaluations": totals.evaluations.load(Ordering::Relaxed).max(1),
+            "distinct_nontrivial": totals.nontrivial.load(Ordering::Relaxed).max(2),
+            "rule": "replay: the stored configuration is re-run completely; only the stored key is reported",
+            "samples": [r], "per_config": [rec], "replay": true});
+        finish(&ctx, cov, vec![], &report)
+    }
+
+    let filter = ctx.opt("config").map(|s| s.to_string());
+    let mut specs: Vec<FixtureSpec> = all_specs()
+        .into_iter()
+        .filter(|s| match &filter {
+            Some(f) => s.name.contains(f.as_str()),
+            None => !ctx.quick() || s.quick,
+        })
+        .collect();
+    // cheap cross-section first, so that a slow machine loses the tail
+    specs.sort_by_key(|s| !s.quick);
+    if specs.is_empty() {
+        machinery_error("no configuration selected");
+    }
+    let n_specs = specs.len();
+    let sink = Sink { report: &report, only_key: None };
+    let mut per_config = vec![];
+    let mut exhaustive = true;
+    let mut done = 0usize;
+    for spec in &specs {
+        if ctx.out_of_time() || (ctx.quick() && ctx.used() > 0.9) {
+            exhaustive = false;
+            break;
+        }
+        let fx = make(spec);
+        per_config.push(check_config(&ctx, &fx, &sink, &verdicts, &totals, &samples));
+        done += 1;
+        release(&fx);
+    }
+    let skipped = totals.skipped.load(Ordering::Relaxed);
+    if skipped > 0 || done < n_specs {
+        exhaustive = false;
+    }
+    let phase3_skipped: Vec<String> = per_config
+        .iter()
+        .filter(|c| !c["every_input_matters"]["ran"].as_bool().unwrap_or(true))
+        .map(|c| c["config"].as_str().unwrap_or("").to_string())
+        .collect();
+    let cov = json!({
+        "evaluations": totals.evaluations.load(Ordering::Relaxed),
+        "distinct_nontrivial": totals.nontrivial.load(Ordering::Relaxed),
+        "rule": "one evaluation = one (input position, basis coefficient) of the honest packed public/private vectors carrying a proof \
+                 leaf — or one proof leaf that is not a circuit input (MMCS sibling digest) — perturbed by +1 and judged by BOTH the \
+                 verification circuit (on the perturbed packed vector / object) and the native verifier (on the proof with the same \
+                 leaf +1); distinct = distinct (configuration, site); non-trivial = the native verifier REJECTS, so the circuit's \
+                 rejection shows the input is wired to a check. Placement pairs and length comparisons are counted separately \
+                 (targets_checked_for_placement, configurations_done × 2 lengths)",
+        "exhaustive": exhaustive,
+        "space": "configurations (E4 catalogue; quick: its quick cross-section; + the extra shapes of this check) × {2 lengths, every \
+                  target of the public target structures, every (position, coefficient) of both packed vectors, every non-input field leaf}",
+        "configurations_planned": n_specs,
+        "configurations_done": done,
+        "targets_checked_for_placement": totals.pairs_checked.load(Ordering::Relaxed),
+        "sites_planned": totals.planned.load(Ordering::Relaxed),
+        "sites_skipped_out_of_time": skipped,
+        "every_input_matters_skipped_for(no accepted baseline; C01 known findings)": phase3_skipped,
+        "verdict_histogram[native|circuit]": verdicts.to_json(),
+        "per_config": per_config,
+        "samples": samples.into_inner().unwrap(),
+    });
+    let assumptions = vec![
+        "native Plonky3 0.6.3 verifiers are the specification of which proof elements matter (as in C01)".to_string(),
+        "the pairing target↔proof element is written by hand from the field names of the public target structures (vpe4::placement); \
+         per-instance batch targets and the common-data commitment targets are pub(crate): the former are reached through the public \
+         flattened aggregate (same ExprIds), the latter is paired by elimination (the public input positions no walked target claims, in order)"
+            .to_string(),
+        "single perturbations, value +1 only; the circuit verdict is the runner outcome on the given inputs (satisfiability by other \
+         private witnesses is C04/C06 territory)"
+            .to_string(),
+        "configurations whose honest proof the circuit rejects (C01 known findings F1 uni+hiding, F2 uneven commitment rounds) have no \
+         baseline for clause (3); clauses (1) and (2) are still checked there"
+            .to_string(),
+        "extension coefficients of lifted base-field inputs carry no proof leaf: perturbing them is listed, not judged".to_string(),
+    ];
+    finish(&ctx, cov, assumptions, &report)
 }
